@@ -59,6 +59,13 @@ CHECKS["C02"] = {
     "technique": "TLA+ spec + TLC enumeration of schedules replayed into the library; trace validation of recorded histories by TLC (learned-function trace spec)",
 }
 
+CHECKS["C01"] = {
+    "text": "PARTIAL. Decided by the specification: the direction algebra - Pipeline.tla's plan of a definition is a word over elementary operators; TLC checks that Plan(d, Inv) is the reversed, direction-flipped Plan(d, Fwd) and that inverse-after-forward / forward-after-inverse restore the operands exactly for every enumerated definition of invertible steps, inv modifiers, pipelines and (nested, inverted) macros; replayed into the library with exact comparison (probe basis and exact built-ins: addone, adapt, axisswap, integer helmert) and with the hook-logged dispatch sequence compared with the specification's plan. NOT decided by the specification: that each elementary operator's inverse numerically undoes its forward - this enters as an axiom and is validated as an assumption over a catalogue lattice with the statement's tolerances (reported separately as assumption_evaluations).",
+    "design_ref": "DESIGN.md §5.1",
+    "note": "Bounded: definitions of <= 3 steps over 4 probes and 4 macros. Numerical accuracy between lattice points and for random ellipsoids is numerical analysis and is not decided.",
+    "technique": "TLA+ spec + TLC (free-group algebra of plans); behaviours replayed into the library; dispatch-hook conformance; catalogue lattice as validated assumption",
+}
+
 _claimed = set(CHECKS)
 _NA_FIXED = {
     "C05": NA_REASON_NUMERIC,
